@@ -4,7 +4,9 @@
 Part T (transforms): every stack of 1-2 RDM vectors over a small value alphabet (all tie /
 zero / sign patterns) plus fixed generic fills, every transform with every parameter of its
 menu (5 rank methods, 9 quantile pairs, 5 custom functions), every NaN mask up to a weight
-for rank_transform; the real transform is run on a freshly built RDMs object carrying one of
+for every transform that supports missing entries (rank, sqrt, positive, custom; a missing
+entry must stay missing; minmax / geodesic / geo-topological are undefined with NaN on the
+unchanged tree: excluded and counted); the real transform is run on a freshly built RDMs object carrying one of
 four descriptor / measure-name configurations and judged entry by entry against the plain
 definitions of mc/ref/c17_ref.py, and its descriptors / measure name against the source's.
 
@@ -12,7 +14,9 @@ Part I (invariance): for every comparison method named in the property, compare(
 stacks before and after mapping either / both stacks by every map of the class the theory
 names for the method (strictly increasing maps for rank-based measures, positive affine maps
 for correlation-type, positive scalings for cosine-type measures); every (i, j) entry must be
-unchanged.
+unchanged.  For the rank-based measures the maps include range-compressing / -expanding ones
+(50+1e-4x, 1e-9x, 1e6x, tanh(x/1e5), exp(5x)), stacks with a common missing entry, and each
+entry is also judged against the order-only definition (exact comparisons) on the mapped values.
 """
 import itertools
 import math
@@ -30,11 +34,14 @@ RULE = ('Part T: every stack of 1-2 RDM vectors over {-1,0,1,2}^3 (all 64, all 4
         'pairs) and {0,1,2}^6 (all 729, each with a fixed set of partner vectors) plus fixed '
         'generic fills for 3-6 conditions; for each stack every transform x parameter (rank '
         'methods average/min/max/dense/ordinal, sqrt, positive, minmax, geodesic, 9 quantile '
-        'pairs, 5 custom functions) and for rank_transform every NaN mask up to a weight; one '
+        'pairs, 5 custom functions) and, for the transforms that support missing entries (rank, '
+        'sqrt, positive, custom), every NaN mask up to a weight; one '
         'evaluation = one real transform call judged against the reference definition and the '
         'source\'s descriptors. Part I: one evaluation = one (i,j) entry of a real compare() '
         'call on mapped stacks judged against the same entry on the unmapped stacks, for every '
-        'method x map of its invariance class x side (first, second, both arguments). '
+        'method x map of its invariance class x side (first, second, both arguments); rank-based '
+        'measures additionally under range-compressing / -expanding increasing maps, on stacks with '
+        'a common missing entry, and against the order-only definition on the mapped values. '
         'Non-trivial = transform / measure defined for the input (non-constant RDM for '
         'minmax/geodesic, distinct quantile thresholds, non-degenerate vectors for the '
         'measure); distinct = distinct case descriptor (plus (i,j) for part I).')
@@ -46,7 +53,11 @@ ASSUMPTIONS = [
     'are excluded',
     'a stack whose quantile thresholds are closer than 1e-6 has no defined clipped-linear map (excluded)',
     'rank method "ordinal" breaks ties by position (scipy semantics named in the docstring)',
-    'NaN entries are only claimed to be supported by rank_transform',
+    'NaN entries: rank_transform, sqrt_transform, positive_transform and transform(fun) keep a missing '
+    'entry missing; minmax / geodesic / geo-topological return all-NaN or raise on the unchanged tree '
+    'and are not claimed (excluded, counted)',
+    'harness-applied maps are verified to be strictly increasing in floating point on each stack '
+    '(pairwise order check), otherwise the case is excluded',
     'values outside the enumerated alphabets are represented by fixed generic fills only',
     '"updated measure name" is read as: a non-empty string different from the source\'s name',
     'whitened measures go through the library\'s conjugate-gradient solve: tolerance 1e-5 (largest deviation seen 6e-8)',
@@ -58,18 +69,22 @@ TOLERANCES = {'transform values': TOL, 'invariance plain': TOL, 'invariance whit
               'quantile threshold gap below which geo-topological is undefined': GAP_MIN}
 BOUNDS = {
     'quick': {'alphabets': ['{-1,0,1,2}^3 singles + all ordered pairs', '{0,1,2}^6 singles + 2 partners'],
-              'nan_masks': 'n=3: all masks (weight<=3) singles, all 8x8 mask pairs on 2 partners; '
+              'nan_masks': 'n=3: all masks (weight<=3) singles, all 8x8 mask pairs on 1 partner; '
                            'n=4: weight<=1',
               'generic': {'n_cond': [3, 4, 5, 6], 'fills': 2, 'stack': [1, 2]},
-              'invariance': {'tierA': ['{0,1,2}^3 all pairs', '{-1,0,1,2}^3 all pairs (tau-b/kendall: half the maps)'],
-                             'generic_fills': 4, 'n_cond': [4, 5]}},
+              'invariance': {'tierA': ['{0,1,2}^3 all pairs (kendall / tau-b: every second map each)',
+                                       '{-1,0,1,2}^3 all pairs (tau-a: one side per map; kendall / tau-b: every '
+                                       'second vector against all 64, every second map each, one side per map)'],
+                             'generic_fills': 4, 'n_cond': [4, 5],
+                             'common_nan': 'n_cond=4: every single missing pair, 5 maps, one side per map'}},
     'thorough': {'alphabets': ['{-1,0,1,2}^3 singles + all ordered pairs', '{0,1,2}^6 singles + 16 partners',
                                '{-1,0,1,2}^6 singles'],
                  'nan_masks': 'n=3: all masks singles, all 8x8 mask pairs on 12 partners; n=4: weight<=3',
                  'generic': {'n_cond': [3, 4, 5, 6], 'fills': 8, 'stack': [1, 2, 3]},
                  'invariance': {'tierA': ['{0,1,2}^3 all pairs', '{-1,0,1,2}^3 all pairs',
                                           '{0,1,2}^6: 27 rows x all 729'],
-                                'generic_fills': 20, 'n_cond': [4, 5, 6]}},
+                                'generic_fills': 20, 'n_cond': [4, 5, 6],
+                                'common_nan': 'n_cond=4: every single missing pair, 5 maps, one side per map'}},
 }
 
 # ------------------------------------------------------------------ alphabets and fills
@@ -121,6 +136,10 @@ CUSTOM_REF = {
 OPS = ([['rank', m] for m in RANK_METHODS] + [['sqrt', None], ['positive', None], ['minmax', None],
                                               ['geodesic', None]] +
        [['geotop', qp] for qp in QUANTILE_PAIRS] + [['custom', f] for f in CUSTOM])
+# operations driven through the NaN-mask families: all of them; those the library does not support
+# with missing entries are excluded and counted in run_T
+NAN_OPS = OPS
+NAN_UNSUPPORTED = ('minmax', 'geodesic', 'geotop')
 LIBNAME = {'rank': 'rank_transform', 'sqrt': 'sqrt_transform', 'positive': 'positive_transform',
            'minmax': 'minmax_transform', 'geodesic': 'geodesic_transform',
            'geotop': 'geotopological_transform', 'custom': 'transform'}
@@ -240,6 +259,18 @@ def _geodesic_kind(got, want, vecs):
     return 'path-length-mismatch'
 
 
+def _register(ctx, case, nontrivial=True):
+    """ctx.case without the JSON + blake2 hashing (dominant cost for 2e5 tiny transform calls); the
+    runner sets PYTHONHASHSEED=0, so hash(repr) is stable"""
+    import mc.runner as _r
+    ctx.evaluations += 1
+    ctx.last_case = case
+    if nontrivial:
+        ctx.distinct.add(hash(repr(case)))
+    if _r._is_sample_index(ctx.evaluations) and len(ctx.samples) < 8:
+        ctx.samples.append(_r.jsonable(case))
+
+
 def run_T(case, ctx, vecs=None):
     """one transform call on one stack; case: {'kind':'T','src':..., 'op','param','dclass'}"""
     import rsatoolbox.rdm as rr
@@ -256,20 +287,25 @@ def run_T(case, ctx, vecs=None):
     if op == 'rank':
         # rank_transform ranks each RDM on its own by construction: class = method (+ NaN present)
         cfg = 'method=%s' % param + (',nan' if has_nan else '')
+    if has_nan and op in NAN_UNSUPPORTED:
+        # min / max / quantile of an RDM with missing entries are NaN on the unchanged tree (the
+        # whole result is NaN, geodesic_transform raises): not claimed by the statement
+        ctx.exclude('%s: RDM with missing (NaN) entries not supported' % name)
+        return
     # ---------------- reference
     if op == 'geotop':
         cands = _geotop_candidates(vecs.tolist(), param[0], param[1])
         if cands is None:
-            ctx.case(case, nontrivial=False)
+            _register(ctx, case, nontrivial=False)
             ctx.exclude('geo-topological: quantile thresholds coincide (under one of the readings)')
             return
     else:
         want, why = _reference_rows(op, param, vecs.tolist())
         if want is None:
-            ctx.case(case, nontrivial=False)
+            _register(ctx, case, nontrivial=False)
             ctx.exclude(why)
             return
-    ctx.case(case)
+    _register(ctx, case)
     measure, desc, rdesc, pdesc = source_descriptors(dclass, k, n_cond)
     with ctx.guard('%s|%s' % (name, cfg), case):
         src = rr.RDMs(vecs.copy(), dissimilarity_measure=measure, descriptors=desc,
@@ -315,19 +351,20 @@ def run_T(case, ctx, vecs=None):
                              vecs.tolist(), param[0], param[1], got.tolist(), cands[0][1], cands[0][2][0]))
             elif k > 1:
                 ctx.count('geotop_stack_matches_' + hit)
-            ctx.outcome(('geotop', np.round(got, 6).tolist()))
+            ctx.outcomes.add(hash(('geotop', np.round(got, 6).tobytes())))
         else:
             ctx.dev(name, maxreldev(got, want))
             if not allclose(got, want, TOL):
                 kind = 'value-mismatch'
                 if op == 'geodesic':
                     kind = _geodesic_kind(got.tolist(), want, vecs.tolist())
-                elif op == 'rank' and has_nan:
-                    gn = np.isnan(got)
-                    kind = 'nan-positions' if not np.array_equal(gn, np.isnan(vecs)) else 'value-mismatch'
+                elif has_nan:
+                    # a missing entry must stay missing (and nothing else may become missing)
+                    wn = np.isnan(np.array(want, dtype=float))
+                    kind = 'nan-positions' if not np.array_equal(np.isnan(got), wn) else 'value-mismatch'
                 ctx.fail('%s|%s|%s' % (name, cfg, kind), case, 'stack %s%s: got %s, definition %s' % (
                     vecs.tolist(), '' if param is None else ' (%s)' % (param,), got.tolist(), want))
-            ctx.outcome((op, np.round(np.nan_to_num(got, nan=-7.0, posinf=-8.0), 6).tolist()))
+            ctx.outcomes.add(hash((op, (np.round(np.nan_to_num(got, nan=-7.0, posinf=-8.0), 6) + 0.0).tobytes())))
         # ---------------- descriptors and measure name
         if not _same_dict(res.descriptors, src_desc):
             ctx.fail('%s|descriptors|descriptors-differ' % name, case,
@@ -402,7 +439,7 @@ def _iter_T(shard):
         masks = [mk for mk in _all_masks(m, shard['maxw']) if mk]
         for i in range(shard['rows'][0], shard['rows'][1]):
             for mk in masks:
-                yield ['alpha', alpha, [i], [mk]], OPS[:5]
+                yield ['alpha', alpha, [i], [mk]], NAN_OPS
     elif kind == 'nan-pairs':
         m = ALPHA[alpha][1]
         n = len(alphabet_vectors(alpha))
@@ -413,7 +450,7 @@ def _iter_T(shard):
                     for m2 in masks:
                         if not m1 and not m2:
                             continue
-                        yield ['alpha', alpha, [i, j], [m1, m2]], OPS[:5]
+                        yield ['alpha', alpha, [i, j], [m1, m2]], NAN_OPS
     elif kind == 'fill':
         n_cond, fill = shard['n_cond'], shard['fill']
         m = n_cond * (n_cond - 1) // 2
@@ -423,10 +460,10 @@ def _iter_T(shard):
                 # every single missing entry, and two missing entries in different rows
                 for r in range(n_vec):
                     for p in range(m):
-                        yield ['fill', n_cond, fill, vk, n_vec, [[r, p]]], OPS[:5]
+                        yield ['fill', n_cond, fill, vk, n_vec, [[r, p]]], NAN_OPS
                 if n_vec >= 2:
                     for p in range(m):
-                        yield ['fill', n_cond, fill, vk, n_vec, [[0, p], [1, (p + 1) % m]]], OPS[:5]
+                        yield ['fill', n_cond, fill, vk, n_vec, [[0, p], [1, (p + 1) % m]]], NAN_OPS
     else:
         raise ValueError(kind)
 
@@ -478,12 +515,24 @@ MAPS['lib:minmax_transform'] = ('affine', 'any', _lib('minmax_transform'))
 MAPS['0.5x'] = ('scaling', 'any', _np_map(lambda v: 0.5 * v))
 MAPS['2x'] = ('scaling', 'any', _np_map(lambda v: 2 * v))
 MAPS['3.7x'] = ('scaling', 'any', _np_map(lambda v: 3.7 * v))
+# class 'rescaling': strictly increasing maps that compress / expand / shift the value range by many
+# orders of magnitude (a measure that only depends on the order must not care how close the values are)
+MAPS['50+1e-4x'] = ('rescaling', 'any', _np_map(lambda v: 50. + 1e-4 * v))
+MAPS['1e-9x'] = ('rescaling', 'any', _np_map(lambda v: 1e-9 * v))
+MAPS['1e6x'] = ('rescaling', 'any', _np_map(lambda v: 1e6 * v))
+MAPS['tanh(x/1e5)'] = ('rescaling', 'any', _np_map(lambda v: np.tanh(v / 1e5)))
+MAPS['exp(5x)'] = ('rescaling', 'any', _np_map(lambda v: np.exp(5 * v)))
+MAPS['lib:transform(1e3+1e-5x)'] = ('rescaling', 'any', _lib_custom(lambda v: 1e3 + 1e-5 * v))
 MAP_ORDER = list(MAPS)
+# maps driven over stacks with a common missing (NaN) entry: the library transforms that support NaN
+# and two harness maps
+NAN_MAPS = ['cube', 'lib:transform(cube)', 'lib:sqrt_transform', 'lib:rank_transform(average)',
+            '50+1e-4x']
 
 
 def maps_for(method):
     if method in RANK_BASED:
-        classes = ('monotone', 'affine', 'scaling')
+        classes = ('monotone', 'affine', 'scaling', 'rescaling')
     elif method in CORR_TYPE:
         classes = ('affine', 'scaling')
     else:
@@ -491,9 +540,9 @@ def maps_for(method):
     return [m for m in MAP_ORDER if MAPS[m][0] in classes]
 
 
-def _partner_map(method, mp, nonneg):
+def _partner_map(method, mp, nonneg, nan=False):
     """the map applied to the second argument when both are mapped: the next admissible one"""
-    ms = [m for m in maps_for(method) if nonneg or MAPS[m][1] == 'any']
+    ms = [m for m in maps_for(method) if (nonneg or MAPS[m][1] == 'any') and (not nan or m in NAN_MAPS)]
     return ms[(ms.index(mp) + 1) % len(ms)]
 
 
@@ -509,6 +558,10 @@ def _inv_stacks(src, seed):
     if src[0] == 'fill':
         X = generic_stack(seed, src[1], src[2], src[3], 5, tag='IX')
         Y = generic_stack(seed, src[1], src[2], src[3], 6, tag='IY')
+        if len(src) > 4 and src[4]:
+            # the same condition pairs missing in every RDM of both stacks (supported by compare)
+            X[:, src[4]] = np.nan
+            Y[:, src[4]] = np.nan
         return X, Y
     raise ValueError(src)
 
@@ -523,13 +576,16 @@ def _sigma(kind, n, seed):
 
 def run_I(case, ctx, base=None):
     """case: {'kind':'I','method','sigma','src','map','side'}; one compare() call on mapped
-    stacks, judged entry-wise against compare() on the unmapped stacks"""
+    stacks, judged entry-wise against compare() on the unmapped stacks and (rank-based measures)
+    against the reference definition evaluated on the mapped values"""
     import rsatoolbox.rdm as rr
     method, mp, side = case['method'], case['map'], case['side']
     X, Y = _inv_stacks(case['src'], ctx.seed)
+    keep = ~np.isnan(X[0])
+    has_nan = not bool(keep.all())
     # degenerate vectors (undefined measure) leave the stacks; counted
-    kx = [i for i, x in enumerate(X) if not mref.is_degenerate(method, x)]
-    ky = [j for j, y in enumerate(Y) if not mref.is_degenerate(method, y)]
+    kx = [i for i, x in enumerate(X) if not mref.is_degenerate(method, x[keep])]
+    ky = [j for j, y in enumerate(Y) if not mref.is_degenerate(method, y[keep])]
     n_ex = len(X) * len(Y) - len(kx) * len(ky)
     if n_ex:
         ctx.excluded['measure undefined (zero norm / constant vector)'] += n_ex
@@ -537,23 +593,26 @@ def run_I(case, ctx, base=None):
     if not kx or not ky:
         return None
     X, Y = X[kx], Y[ky]
-    nonneg = bool(X.min() >= 0 and Y.min() >= 0)
+    nonneg = bool(np.nanmin(X) >= 0 and np.nanmin(Y) >= 0)
     cls, dom, fun = MAPS[mp]
     if dom == 'nonneg' and not nonneg:
         raise ValueError('map %s needs non-negative stacks' % mp)
     n_cond = ref.n_from_len(X.shape[1])
     white = method in ('cosine_cov', 'corr_cov')
+    rank_based = method in RANK_BASED
     kw = {'sigma_k': _sigma(case['sigma'], n_cond, ctx.seed)} if white else {}
     tol = TOL_CG if white else TOL
     tag = 'method=%s,map=%s' % (method, cls)
     if white:
         tag += ',sigma_k=%s' % case['sigma']
+    if has_nan:
+        tag += ',nan'
     import mc.runner as _r
     with ctx.guard('invariance|' + tag, case):
         rx, ry = rr.RDMs(X.copy()), rr.RDMs(Y.copy())
         if base is None:
             base = np.asarray(rr.compare(rx, ry, method=method, **kw))
-        mp2 = _partner_map(method, mp, nonneg)
+        mp2 = _partner_map(method, mp, nonneg, has_nan)
         tx = fun(rx) if side in ('x', 'xy') else rx
         if side == 'y':
             ty = fun(ry)
@@ -561,24 +620,42 @@ def run_I(case, ctx, base=None):
             ty = MAPS[mp2][2](ry)
         else:
             ty = ry
+        TX = np.asarray(tx.get_vectors(), dtype=float)
+        TY = np.asarray(ty.get_vectors(), dtype=float)
+        if rank_based:
+            # harness-applied maps must really be strictly increasing in floating point on this data
+            for used, A, B in ((mp if side != 'y' else None, X, TX),
+                               (mp if side == 'y' else (mp2 if side == 'xy' else None), Y, TY)):
+                if used is None or used.startswith('lib:'):
+                    continue
+                if not all(ref.same_order(a, b) for a, b in zip(A, B)):
+                    ctx.exclude('harness map not strictly increasing in floating point on this stack')
+                    return base
         got = np.asarray(rr.compare(tx, ty, method=method, **kw))
         if got.shape != base.shape:
             ctx.fail('invariance|%s|shape' % tag, case, '%r vs %r' % (got.shape, base.shape))
             return base
         h = _r.h64(case)
-        bad = None
         for i in range(got.shape[0]):
+            txi = TX[i][keep] if rank_based else None
             for j in range(got.shape[1]):
                 ctx.evaluations += 1
                 ctx.distinct.add(hash((h, i, j)))
                 ctx.dev('inv/' + method, reldev(got[i, j], base[i, j]))
                 if not close(got[i, j], base[i, j], tol) or math.isnan(got[i, j]):
-                    if bad is None:
-                        bad = (i, j)
                     ctx.fail('invariance|%s|changed' % tag, dict(case, i=i, j=j),
                              '%s of x=%s, y=%s is %.12g; after %s on %s%s it is %.12g' % (
                                  method, X[i].tolist(), Y[j].tolist(), base[i, j], mp, side,
                                  ' (second argument mapped by %s)' % mp2 if side == 'xy' else '', got[i, j]))
+                if rank_based:
+                    # the order-only definition (exact comparisons) evaluated on the mapped values
+                    want = mref.similarity(method, txi, TY[j][keep])
+                    if want is not None:
+                        ctx.dev('inv-def/' + method, reldev(got[i, j], want))
+                        if not close(got[i, j], want, TOL):
+                            ctx.fail('invariance|%s|differs-from-definition' % tag, dict(case, i=i, j=j),
+                                     '%s of the mapped x=%s, y=%s (map %s on %s) is %.12g, definition %.12g' % (
+                                         method, TX[i].tolist(), TY[j].tolist(), mp, side, got[i, j], want))
                 if (i + 7 * j) % 5 == 0:
                     ctx.outcome(round(float(base[i, j]), 9))
         ctx.last_case = case
@@ -629,7 +706,7 @@ def shards(tier, seed):
     out.append({'kind': 'T', 't': 'nan-single', 'alpha': 'm1012^3', 'rows': [0, 64], 'maxw': 3})
     for a in range(0, 64, 4 if not th else 1):
         out.append({'kind': 'T', 't': 'nan-pairs', 'alpha': 'm1012^3', 'rows': [a, a + (4 if not th else 1)],
-                    'maxw': 3, 'partners': 12 if th else 2})
+                    'maxw': 3, 'partners': 12 if th else 1})
     step = 81 if not th else 9
     for a in range(0, 729, step):
         out.append({'kind': 'T', 't': 'nan-single', 'alpha': '012^6', 'rows': [a, a + step],
@@ -639,39 +716,48 @@ def shards(tier, seed):
         for fill in range(8 if th else 2):
             out.append({'kind': 'T', 't': 'fill', 'n_cond': n_cond, 'fill': fill,
                         'stacks': [1, 2, 3] if th else [1, 2]})
-    # ---- I: invariance
-    def inv(method, sigma, src, maps=None):
-        nonneg = src[0] != 'fill' and min(ALPHA[src[1]][0]) >= 0 or (src[0] == 'fill' and src[3] == 'nonneg')
-        for mp in maps_for(method):
-            if MAPS[mp][1] == 'nonneg' and not nonneg:
-                continue
-            if maps is not None and mp not in maps:
-                continue
-            out.append({'kind': 'I', 'method': method, 'sigma': sigma, 'src': src, 'map': mp})
+    # ---- I: invariance.  One shard = (method, sigma, stacks) x a chunk of maps; sides 'all' = first,
+    # second and both arguments mapped, 'rot' = one of the three per map, rotating over the maps
+    def inv(method, sigma, src, maps=None, chunk=99, sides='all'):
+        nonneg = min(ALPHA[src[1]][0]) >= 0
+        ms = [mp for mp in maps_for(method)
+              if (MAPS[mp][1] == 'any' or nonneg) and (maps is None or mp in maps)]
+        for a in range(0, len(ms), chunk):
+            out.append({'kind': 'I', 'method': method, 'sigma': sigma, 'src': src, 'maps': ms[a:a + chunk],
+                        'sides': sides})
 
     meth_sig = ([(m, 'none') for m in RANK_BASED + ['corr', 'cosine']] +
                 [(m, s) for m in ('corr_cov', 'cosine_cov') for s in ('none', 'full')])
     for method, sigma in meth_sig:
-        inv(method, sigma, ['alpha', '012^3', [0, 27]])
         slow = method in ('kendall', 'tau-b')
+        # quick tier: 'kendall' and 'tau-b' are two names of one measure (Kendall's tau-b): they share
+        # the maps (every second one each)
+        half = None
+        if slow and not th:
+            half = MAP_ORDER[0::2] if method == 'kendall' else MAP_ORDER[1::2]
+        inv(method, sigma, ['alpha', '012^3', [0, 27]], maps=half,
+            chunk=4 if slow else (8 if method == 'tau-a' else 99))
         if th or not slow:
             for a in (0, 32):
-                inv(method, sigma, ['alpha', 'm1012^3', [a, a + 32]])
+                inv(method, sigma, ['alpha', 'm1012^3', [a, a + 32]],
+                    chunk=2 if slow else (6 if method == 'tau-a' else 8),
+                    sides='all' if th or method != 'tau-a' else 'rot')
         else:
-            # quick tier: the two names of Kendall's tau-b share the negative-valued alphabet
-            half = MAP_ORDER[0::2] if method == 'kendall' else MAP_ORDER[1::2]
-            for a in (0, 32):
-                inv(method, sigma, ['alpha', 'm1012^3', [a, a + 32]], maps=half)
+            # ... and on the negative-valued alphabet take every second vector as first argument
+            # (against all 64) and map one side per map
+            inv(method, sigma, ['alpharows', 'm1012^3', list(range(0, 64, 2))], maps=half, chunk=3, sides='rot')
         if th:
             rows = [27 * i + (i * 7) % 27 for i in range(27)]
-            chunk = 3 if slow else 9
-            for a in range(0, 27, chunk):
-                inv(method, sigma, ['alpharows', '012^6', rows[a:a + chunk]])
+            nrow = 3 if slow else 9
+            for a in range(0, 27, nrow):
+                inv(method, sigma, ['alpharows', '012^6', rows[a:a + nrow]], chunk=6 if slow else 99)
     for method, sigma in meth_sig:
+        slow = method in ('kendall', 'tau-b')
         for n_cond in ((4, 5, 6) if th else (4, 5)):
-            for f0 in range(0, 20 if th else 4, 5 if th else 2):
+            step = (2 if slow else 5) if th else (1 if slow else 2)
+            for f0 in range(0, 20 if th else 4, step):
                 out.append({'kind': 'Ifill', 'method': method, 'sigma': sigma, 'n_cond': n_cond,
-                            'fills': [f0, f0 + (5 if th else 2)]})
+                            'fills': [f0, f0 + step], 'sides': 'all' if th or not slow else 'rot'})
     # ---- L: spearman == corr of rank-transformed
     out.append({'kind': 'L', 'src': ['alpha', '012^3', [0, 27]]})
     out.append({'kind': 'L', 'src': ['alpha', 'm1012^3', [0, 64]]})
@@ -681,6 +767,12 @@ def shards(tier, seed):
         for vk in ('signed', 'ties', 'nonneg'):
             out.append({'kind': 'L', 'src': ['fill', n_cond, 0, vk]})
     return out
+
+
+def _sides(mode, mp, shift=0):
+    if mode == 'all':
+        return ('x', 'y', 'xy')
+    return (('x', 'xy', 'y')[(MAP_ORDER.index(mp) + shift) % 3],)
 
 
 def run_shard(shard, ctx):
@@ -694,24 +786,42 @@ def run_shard(shard, ctx):
                 run_T({'kind': 'T', 'src': src, 'op': op, 'param': param, 'dclass': n % 4}, ctx, vecs)
     elif kind == 'I':
         base = None
-        for side in ('x', 'y', 'xy'):
-            case = dict(shard, side=side)
-            base = run_I(case, ctx, base)
-            if base is None:
-                break
+        for mp in shard['maps']:
+            for side in _sides(shard.get('sides', 'all'), mp):
+                base = run_I({'kind': 'I', 'method': shard['method'], 'sigma': shard['sigma'],
+                              'src': shard['src'], 'map': mp, 'side': side}, ctx, base)
+                if base is None:
+                    return
     elif kind == 'Ifill':
+        method = shard['method']
         for fill in range(shard['fills'][0], shard['fills'][1]):
             for vk in ('signed', 'ties', 'nonneg'):
                 src = ['fill', shard['n_cond'], fill, vk]
-                for mp in maps_for(shard['method']):
+                base = None
+                for mp in maps_for(method):
                     if MAPS[mp][1] == 'nonneg' and vk != 'nonneg':
                         continue
-                    base = None
-                    for side in ('x', 'y', 'xy'):
-                        base = run_I({'kind': 'I', 'method': shard['method'], 'sigma': shard['sigma'],
+                    for side in _sides(shard.get('sides', 'all'), mp, fill):
+                        base = run_I({'kind': 'I', 'method': method, 'sigma': shard['sigma'],
                                       'src': src, 'map': mp, 'side': side}, ctx, base)
                         if base is None:
                             break
+                    if base is None:
+                        break
+            if method in RANK_BASED and shard['n_cond'] == 4:
+                # every single condition pair missing in all RDMs of both stacks
+                for vk in ('ties', 'nonneg'):
+                    for p in range(6):
+                        src = ['fill', 4, fill, vk, [p]]
+                        base = None
+                        for mp in NAN_MAPS:
+                            if MAPS[mp][1] == 'nonneg' and vk != 'nonneg':
+                                continue
+                            for side in _sides('rot', mp, p):
+                                base = run_I({'kind': 'I', 'method': method, 'sigma': shard['sigma'],
+                                              'src': src, 'map': mp, 'side': side}, ctx, base)
+                            if base is None:
+                                break
     elif kind == 'L':
         run_L(shard, ctx)
     else:
